@@ -113,6 +113,18 @@ def instance(name, tier, rng):
                     continue        # 6 hole + 6 board + burn > 14 cards
                 cfgs.append({'cfg': cfg(n, st, 'No-limit', [0] * n, blinds, 0, stacks, ['StandardHigh', 'EightOrBetter'], low, list(ALL_AUTOS), True,
                                          boards0=boards0), 'decks': dk})
+    elif name == 'betting':
+        # one betting round in depth: three players, unequal stacks up to 8, blinds, every amount - short all-in raises that do and do
+        # not re-open the action, min-raise sizes, covered players; no-limit and pot-limit; one card each (best card wins)
+        st = [street(False, [False], 0, False, 'Position', 2, -1)]
+        dk = [rng.sample(JQK, 12)]
+        mech = ['Ante posting', 'Bet collection', 'Blind or straddle posting', 'Card burning', 'Hole dealing', 'Board dealing',
+                'Hole cards showing or mucking', 'Hand killing', 'Chips pushing', 'Chips pulling']
+        for structure in ('No-limit', 'Pot-limit'):
+            for stacks in ([(3, 8, 6), (4, 8, 8), (2, 7, 4)] if q else [(3, 8, 6), (4, 8, 8), (5, 3, 9), (2, 7, 4), (6, 8, 7)]):
+                cfgs.append({'cfg': cfg(3, st, structure, [0, 0, 0], [1, 2, 0], 0, stacks, ['Kuhn'], JQK, mech, True), 'decks': dk})
+        if not q:
+            cfgs.append({'cfg': cfg(4, st, 'No-limit', [0] * 4, [1, 2, 0, 0], 0, (3, 6, 4, 6), ['Kuhn'], JQK, mech, True), 'decks': dk})
     elif name == 'blindlayouts':
         # who opens: straddles, late posts (negative), short posters, heads-up - on the two-street flop game, mechanical steps automated
         st = [street(False, [False, False], 0, False, 'Position', 2, -1), street(True, [], 3, False, 'Position', 2, -1)]
@@ -237,7 +249,7 @@ def replay_behaviour(tid, inst, beh, probe_level=None):
 
 
 MC_FOR = {
-    'C01': ['kuhn', 'miniflop'], 'C02': ['miniflop', 'hilo', 'runout'], 'C03': ['miniflop', 'ministud'], 'C06': ['minidraw', 'kuhn'],
+    'C01': ['kuhn', 'miniflop'], 'C02': ['miniflop', 'hilo', 'runout'], 'C03': ['miniflop', 'ministud', 'betting'], 'C06': ['minidraw', 'kuhn'],
     'C07': ['kuhn', 'ministud', 'minidraw'], 'C08': ['kuhn', 'minidraw'], 'C09': ['kuhn', 'ministud'], 'C10': ['ministud', 'minidraw'],
     'C12': ['miniflop', 'hilo'], 'C13': ['ministud', 'blindlayouts'], 'C14': ['runout'], 'C15': ['kuhn', 'minidraw'],
 }
@@ -255,8 +267,9 @@ def mc_part(run: Run, prop: str, replay_max=None):
     from . import trace_checks as T
     from . import pk
     rng = random.Random(run.seed * 131 + sum(map(ord, prop)))
+    probing = prop in ('C03', 'C07', 'C08', 'C10', 'C14')
     if replay_max is None:
-        replay_max = 500 if run.tier == 'quick' else 6000
+        replay_max = (250 if probing else 500) if run.tier == 'quick' else (3000 if probing else 6000)
     for name in MC_FOR[prop]:
         inst = instance(name, run.tier, random.Random(run.seed * 17 + len(name)))
         big = name in ('minidraw', 'runout') or run.tier != 'quick'
@@ -277,7 +290,7 @@ def mc_part(run: Run, prop: str, replay_max=None):
         sample = ok if len(ok) <= replay_max else rng.sample(ok, replay_max)
         recs, lost = [], 0
         for j, b in enumerate(sample):
-            rec, followed = replay_behaviour(j + 1, inst, b, probe_level=1 if prop in ('C03', 'C07', 'C08', 'C10', 'C14') else None)
+            rec, followed = replay_behaviour(j + 1, inst, b, probe_level=1 if probing else None)
             T.mechanisms(run, rec)
             recs.append(rec)
             if not followed:
